@@ -1396,6 +1396,13 @@ func (t *itr) assignedOuter(x *ast.IfStmt) []string {
 		}
 		return true
 	})
+	// ... and locals changed by an element / field write or through a pointer-receiver method (`event.Added = …`)
+	blk := &ast.BlockStmt{List: []ast.Stmt{x}}
+	for _, n := range t.extraAssigned(blk, res...) {
+		if !declared[n] {
+			res = append(res, n)
+		}
+	}
 	return res
 }
 
@@ -2359,8 +2366,14 @@ func (t *itr) countLoop(x *ast.ForStmt, rest []ast.Stmt, ind string) ([]string, 
 	if !ok || len(init.Lhs) != 1 || init.Tok != token.ASSIGN {
 		return nil, false
 	}
+	startExpr := ""
 	if tv, ok := t.p.info.Types[init.Rhs[0]]; !ok || tv.Value == nil || constant.Sign(tv.Value) != 0 {
-		return nil, false
+		// `for e = start; e < end; e++` over uint32: end - start rounds (none if end ≤ start), e = start + round
+		if id, isId := init.Rhs[0].(*ast.Ident); isId && t.leanType(t.typeOf(id)) == "BitVec 32" {
+			startExpr = id.Name
+		} else {
+			return nil, false
+		}
 	}
 	cj, ok := cond.X.(*ast.Ident)
 	pj, ok2b := post.X.(*ast.Ident)
@@ -2464,12 +2477,23 @@ func (t *itr) countLoop(x *ast.ForStmt, rest []ast.Stmt, ind string) ([]string, 
 	if unsignedCtr {
 		bound = "toNat"
 	}
-	out = append(out, fmt.Sprintf("%slet %s ← (List.range ((%s).%s)).foldlM (fun %s %s => do", ind, ef.bind, nv, bound, ef.pat, jN))
+	if startExpr != "" {
+		if !unsignedCtr {
+			return nil, false
+		}
+		out = append(out, fmt.Sprintf("%slet %s ← (List.range ((%s).toNat - (%s).toNat)).foldlM (fun %s %s => do", ind, ef.bind, nv, startExpr, ef.pat, jN))
+	} else {
+		out = append(out, fmt.Sprintf("%slet %s ← (List.range ((%s).%s)).foldlM (fun %s %s => do", ind, ef.bind, nv, bound, ef.pat, jN))
+	}
 	bi := ind + "    "
 	if hasRet {
 		out = append(out, fmt.Sprintf("%sif %s.isSome then pure %s else", bi, ef.rv, ef.bind))
 	}
-	out = append(out, fmt.Sprintf("%slet %s : BitVec 32 := BitVec.ofNat 32 %s", bi, jv.Name, jN))
+	if startExpr != "" {
+		out = append(out, fmt.Sprintf("%slet %s : BitVec 32 := %s + BitVec.ofNat 32 %s", bi, jv.Name, startExpr, jN))
+	} else {
+		out = append(out, fmt.Sprintf("%slet %s : BitVec 32 := BitVec.ofNat 32 %s", bi, jv.Name, jN))
+	}
 	savedLoopVar, savedEarly := t.loopVar, t.earlyItems
 	t.loopVar = ef.cont
 	if hasRet {
@@ -2961,7 +2985,7 @@ func genPools(repo string, tiny bool) (string, []string) {
 	for _, f := range []string{"Query.countEntities", "Query.Count", "Query.entityAt", "Query.EntityAt", "World.exchangeArch", "World.exchangeBatchNoNotify", "World.setRelationArch", "World.setRelationBatchNoNotify"} {
 		t.joinIf[f] = true
 	}
-	for _, f := range []string{"World.exchangeArch", "World.exchangeBatchNoNotify", "World.setRelationArch", "World.setRelationBatchNoNotify", "World.newEntities", "World.newEntityTarget", "World.copyTo", "World.closeQuery", "World.assign"} {
+	for _, f := range []string{"World.exchangeArch", "World.exchangeBatchNoNotify", "World.setRelationArch", "World.setRelationBatchNoNotify", "World.newEntities", "World.newEntityTarget", "World.copyTo", "World.closeQuery", "World.assign", "World.notifyQuery"} {
 		t.usesEff[f] = true
 		t.joinIf[f] = true
 	}
@@ -2983,7 +3007,7 @@ func genPools(repo string, tiny bool) (string, []string) {
 	t.structs["EntityEvent"] = true
 	t.effExt["archetype.Remove"] = "archRemoveF"
 	t.nilChecks = map[string]bool{}
-	for _, f := range []string{"World.assign", "World.closeQuery", "World.copyTo", "World.newEntityTarget", "World.newEntities", "World.exchangeArch", "World.exchangeBatchNoNotify", "World.setRelationArch", "World.setRelationBatchNoNotify", "Query.setArchetype", "Query.stepArchetype", "Query.nextArchetypeSimple", "Query.nextArchetypeFiltered", "Query.nextArchetypeBatch", "Query.nextBatch", "Query.nextNode", "Query.nextNodeOrArchetype", "Query.nextArchetype", "Query.Next",
+	for _, f := range []string{"World.notifyQuery", "World.assign", "World.closeQuery", "World.copyTo", "World.newEntityTarget", "World.newEntities", "World.exchangeArch", "World.exchangeBatchNoNotify", "World.setRelationArch", "World.setRelationBatchNoNotify", "Query.setArchetype", "Query.stepArchetype", "Query.nextArchetypeSimple", "Query.nextArchetypeFiltered", "Query.nextArchetypeBatch", "Query.nextBatch", "Query.nextNode", "Query.nextNodeOrArchetype", "Query.nextArchetype", "Query.Next",
 		"Query.countEntities", "Query.Count", "Query.entityAt", "Query.EntityAt", "World.findArchetypeSlow", "World.findOrCreateArchetypeSlow", "World.findOrCreateArchetype", "World.NewEntity", "World.notifyExchange", "World.exchange", "World.newEntitiesNoNotify", "World.removeEntities", "World.getExchangeMask", "World.exchangeNoNotify", "World.createArchetype", "World.setRelation", "World.RemoveEntity", "World.removeArchetype", "World.cleanupArchetype", "World.cleanupArchetypes", "World.createEntity", "World.createEntities", "World.Has", "World.HasUnchecked", "World.Mask",
 		"World.relationError", "World.checkRelation", "World.getRelation", "World.getRelationUnchecked"} {
 		t.nilChecks[f] = true
@@ -3101,7 +3125,7 @@ func genPools(repo string, tiny bool) (string, []string) {
 		"Entity.IsZero", "World.removeArchetype", "World.cleanupArchetype", "World.cleanupArchetypes", "World.RemoveEntity",
 		"World.createArchetype", "World.setRelation", "World.getExchangeMask", "World.exchangeNoNotify", "World.removeEntities", "World.newEntitiesNoNotify", "World.notifyExchange", "World.exchange", "World.NewEntity",
 		"World.findArchetypeSlow", "World.findOrCreateArchetypeSlow", "World.findOrCreateArchetype",
-		"batchArchetypes.Get", "batchArchetypes.Len", "batchArchetypes.Add", "World.exchangeArch", "World.exchangeBatchNoNotify", "World.setRelationArch", "World.setRelationBatchNoNotify", "World.newEntities", "World.newEntityTarget", "World.copyTo", "World.closeQuery", "World.assign", "Query.countEntities", "Query.Count", "Query.entityAt", "Query.EntityAt",
+		"batchArchetypes.Get", "batchArchetypes.Len", "batchArchetypes.Add", "World.exchangeArch", "World.exchangeBatchNoNotify", "World.setRelationArch", "World.setRelationBatchNoNotify", "World.newEntities", "World.newEntityTarget", "World.copyTo", "World.notifyQuery", "World.closeQuery", "World.assign", "Query.countEntities", "Query.Count", "Query.entityAt", "Query.EntityAt",
 		"Query.checkNext", "Query.setArchetype", "Query.stepArchetype", "Query.nextArchetypeSimple", "Query.nextArchetypeFiltered",
 		"Query.nextArchetypeBatch", "Query.nextBatch", "Query.nextNode", "Query.nextNodeOrArchetype", "Query.nextArchetype", "Query.Next",
 	}
@@ -3174,7 +3198,7 @@ func genPools(repo string, tiny bool) (string, []string) {
 		sort.Strings(t.needExt[f])
 	}
 	for _, f := range funcs {
-		if f == "batchArchetypes.Add" || f == "World.setRelationBatchNoNotify" {
+		if f == "batchArchetypes.Add" || f == "World.setRelationBatchNoNotify" || f == "World.notifyQuery" {
 			// `end`, a parameter / variable name there, is a keyword of Lean: written `end_`
 			var tmp strings.Builder
 			t.emitFunc(&tmp, f)
